@@ -24,6 +24,7 @@ import (
 	"strconv"
 	"strings"
 	"sync"
+	"sync/atomic"
 	"testing"
 	"text/template"
 	"time"
@@ -379,6 +380,112 @@ func vtOffer(t *vtTokens) (res string) {
 		return "ERR"
 	}
 	return "OK x" + hex.EncodeToString(out.Bytes())
+}
+
+// ---------------------------------------------------------------------------------------------------------------
+// Concurrent stream.  The coordinator handles every evaluator response in its own goroutine and modules render
+// concurrently, so executeTemplate, the shipped templates and the helper functions must be re-entrant.  Every "render"
+// case of the batch is rendered once sequentially; then, in 3 rounds with 8, 12 and 16 goroutines, every goroutine
+// renders the whole batch (each in a different rotation) at the same time.  Every concurrent output must equal the
+// sequential output of the same case byte for byte.  Output per case: "SAME <sequential verdict>" or
+// "DIFF round=<r> goroutines=<n> sequential=<verdict> x<hex> concurrent=<verdict> x<hex>" (first difference seen).
+// ---------------------------------------------------------------------------------------------------------------
+
+type vtJob struct {
+	tmpl    *template.Template
+	extras  map[string]string
+	status  *protocol.ConsumerGroupStatus
+	id      string
+	start   time.Time
+	verdict string
+	out     []byte
+	diff    atomic.Value // string
+}
+
+func vtHexPrefix(b []byte) string {
+	if len(b) > 600 {
+		b = b[:600]
+	}
+	return "x" + hex.EncodeToString(b)
+}
+
+func TestVerifProbeTmplConc(t *testing.T) {
+	casesPath, outPath := os.Getenv("VERIF_CASES"), os.Getenv("VERIF_OUT")
+	if casesPath == "" || outPath == "" {
+		t.Skip("VERIF_CASES / VERIF_OUT not set")
+	}
+	in, err := os.Open(casesPath)
+	if err != nil {
+		t.Fatal(err)
+	}
+	defer in.Close()
+	var jobs []*vtJob
+	sc := bufio.NewScanner(in)
+	sc.Buffer(make([]byte, 1<<20), 1<<26)
+	for sc.Scan() {
+		line := strings.TrimSpace(sc.Text())
+		if line == "" {
+			continue
+		}
+		tk := &vtTokens{f: strings.Fields(line)}
+		if tk.next() != "render" {
+			t.Fatalf("the concurrent stream takes render cases only: %q", line)
+		}
+		name := tk.next()
+		_ = tk.next()
+		cluster, group, id := tk.str(), tk.str(), tk.str()
+		j := &vtJob{id: id, start: vtStart(tk.i64())}
+		j.extras = tk.extras()
+		j.status = tk.status(cluster, group)
+		j.tmpl, err = vtTemplate(name)
+		if err != nil {
+			j.verdict = "PARSE-ERR"
+		} else {
+			j.verdict, j.out = vtExec(j.tmpl, j.extras, j.status, j.id, j.start)
+		}
+		jobs = append(jobs, j)
+	}
+	for round, workers := range []int{8, 12, 16} {
+		var wg sync.WaitGroup
+		startGate := make(chan struct{})
+		for w := 0; w < workers; w++ {
+			wg.Add(1)
+			go func(w int) {
+				defer wg.Done()
+				<-startGate
+				n := len(jobs)
+				for k := 0; k < n; k++ {
+					j := jobs[(k+w*(n/workers+1))%n]
+					if j.tmpl == nil {
+						continue
+					}
+					v, out := vtExec(j.tmpl, j.extras, j.status, j.id, j.start)
+					if v != j.verdict || !bytes.Equal(out, j.out) {
+						if j.diff.Load() == nil {
+							j.diff.Store(fmt.Sprintf("DIFF round=%d goroutines=%d sequential=%s %s concurrent=%s %s",
+								round, workers, j.verdict, vtHexPrefix(j.out), v, vtHexPrefix(out)))
+						}
+					}
+				}
+			}(w)
+		}
+		close(startGate)
+		wg.Wait()
+	}
+	outf, err := os.Create(outPath)
+	if err != nil {
+		t.Fatal(err)
+	}
+	defer outf.Close()
+	w := bufio.NewWriter(outf)
+	defer w.Flush()
+	for _, j := range jobs {
+		if d := j.diff.Load(); d != nil {
+			fmt.Fprintln(w, d.(string))
+		} else {
+			fmt.Fprintln(w, "SAME "+j.verdict)
+		}
+	}
 }
 
 func TestVerifProbeTmpl(t *testing.T) {
